@@ -16,12 +16,16 @@ Hypotheses of the theorems below:
   `exprHintSafe e` (decidable scope) every DATED range (`Mar 01-Jun 15`, `easter`, `2024 Mar 01-…`) of the
                    expression satisfies `datedHintSafe` (OH/Proofs/HintDatedSafe.lean): a single day with a
                    year, or a start that carries a year (one interval): no condition; a yearless single day
-                   (`Feb 29`, `Dec 25 +Su`): offsets within about a year (`singleDaySafe`); a yearless range
-                   (`Mar 01-Jun 15`, `Dec 24-Jan 02`, `easter -2 days-easter +1 day`): both shifted bounds stay
-                   in the calendar year they are projected on (`datedLocalB`; always true without offsets).
-                   Expressions without dated ranges (`NoDated`) are in scope.  The scope hypothesis cannot be
-                   dropped: `envOK_fails_shifted` refutes `EnvOK` for `Jan 01 +400 days-Jan 10 +770 days`
-                   (confirmed on the real code, harness/examples/dated_hint.rs).
+                   (`Feb 29`, `Dec 25 +Su`) and a yearless range (`Mar 01-Jun 15`, `Dec 24-Jan 02`,
+                   `easter -2 days-easter +1 day`, `Jan 01 +400 days-Jan 10 +770 days`): both day offsets within
+                   ±100 000 days (and, for the range, an end without a year: a defined meaning) — NO condition
+                   on the size of the shift relative to a year any more: the search windows of
+                   `MonthdayRange::Date` are centred on the year of `d - day offset` (`yearBeforeOffset`).
+                   Expressions without dated ranges (`NoDated`) are in scope.  The former refutation of the
+                   unscoped statement (`envOK_fails_shifted`, witness `Jan 01 +400 days-Jan 10 +770 days`,
+                   open finding `dated-shift-over-a-year`) is now the theorem `envOK_shifted`: the witness is in
+                   scope and `EnvOK` holds of it.  Beyond ±100 000 days nothing is proved; no failure of
+                   `EnvOK` is known there (brute force on the model up to ±10⁹ days: the hint stays sound).
   (`ExprDatedOK e` is the semantic form of the scope: every dated range has a total filter and a sound hint.)
 
 Everything else — year ranges with steps and wrap, month ranges with and without year, week ranges
@@ -155,7 +159,8 @@ theorem envOK_of_parserWF (ctx : Ctx) (hc : CtxWF ctx) (e : Expr) (hw : ParserWF
 The `…_partial` theorems of OH/Props/C02.lean, C03.lean, C16.lean instantiated: the hypothesis
 `DayLevelOK ctx e` is replaced by `CtxWF ctx`, `ParserWF e` and the decidable scope `exprHintSafe e`
 (`NoDated e` suffices: `exprHintSafe_of_noDated`).  Still `…_partial`: FULL STATEMENT = the same without the
-scope hypothesis, which is false (`envOK_fails_shifted`, `layerB_unscoped_fails` below). -/
+scope hypothesis (day offsets of yearless dated ranges within ±100 000 days), which is neither proved nor
+refuted (the former refutation is now `envOK_shifted` below). -/
 
 section corollaries
 variable {ctx : Ctx} {e : Expr} (hc : CtxWF ctx) (hw : ParserWF e = true) (hs : exprHintSafe e = true)
@@ -259,32 +264,55 @@ example : exprHintSafe demoDated = true := by decide
 example : NoDated demoDated = false := by decide
 example : DayLevelOK demoCtx demoDated := envOK_of_parserWF demoCtx (by decide) demoDated (by decide) (by decide)
 
-/-! ## the scope hypothesis cannot be dropped
+/-! ## the former refutation of the unscoped statement
 
-`Jan 01 +400 days-Jan 10 +770 days` (both bounds shifted by more than a year): the filter's window
-(years y−2..y+2 since the repair 1838e73) and the hint's window (y−2..y+10) pair the bounds differently.
-From 2019-02-20 (day 737110, closed) `next_change_hint` answers 2020-02-05 (737460) although
-2020-01-01 (737425) is open all day.  On the real code: `iter_range` reports Closed for
-2019-02-20..2020-02-05 while `state()` is Open from 2020-01-01 (harness/examples/dated_hint.rs). -/
+`Jan 01 +400 days-Jan 10 +770 days` (both bounds shifted by more than a year).  With search windows around
+the year of the evaluated day (filter `y−2..y+2`, hint `y−2..y+10`) filter and hint paired the bounds
+differently: from 2019-02-20 (day 737110, closed) `next_change_hint` answered 2020-02-05 (737460) although
+2020-01-01 (737425) was open all day (on the real code `iter_range` reported Closed for
+2019-02-20..2020-02-05 while `state()` was Open from 2020-01-01); `¬ EnvOK` was a theorem
+(`envOK_fails_shifted`, `layerB_unscoped_fails`).  With the windows centred on the year of `d - day offset`
+the expression is inside the scope, `EnvOK` holds, and 2020-01-01 is closed as the specification says. -/
 
 def shiftedExpr : Expr :=
   [⟨⟨[], [.date (.fixed none 1 1) ⟨.none, 400⟩ (.fixed none 1 10) ⟨.none, 770⟩], [], []⟩, [TimeSpan.fullDay], .open, .normal, []⟩]
 
 example : ParserWF shiftedExpr = true := by decide
-example : exprHintSafe shiftedExpr = false := by decide
+example : exprHintSafe shiftedExpr = true := by decide
 
-/-- REFUTATION of the unscoped statement `∀ e, ParserWF e → EnvOK (envOf ctx e)`: `hint_sound` fails -/
-theorem envOK_fails_shifted : ¬ EnvOK (envOf Ctx.default shiftedExpr) := by
-  intro ok
-  have h1 : (envOf Ctx.default shiftedExpr).hintOf 737110 = 737460 := by decide +kernel
-  have h2 : (envOf Ctx.default shiftedExpr).schedOf 737425 = [⟨0, 1440, .open, []⟩] := by decide +kernel
-  have h3 : lastKind ((envOf Ctx.default shiftedExpr).schedOf 737110) = .closed := by decide +kernel
-  have := ok.hint_sound 737110 737425 (by decide) (by rw [h1]; decide) (by decide +kernel) ⟨0, 1440, .open, []⟩
-    (by rw [h2]; simp)
-  rw [h3] at this
-  cases this
+/-- the former counter-example meets `EnvOK` -/
+theorem envOK_shifted : DayLevelOK Ctx.default shiftedExpr :=
+  envOK_of_parserWF Ctx.default (by decide) shiftedExpr (by decide) (by decide)
 
-theorem layerB_unscoped_fails : ¬ ∀ e : Expr, ParserWF e = true → DayLevelOK Ctx.default e :=
-  fun h => envOK_fails_shifted (h shiftedExpr (by decide))
+/-- concretely: from 2019-02-20 (737110, closed, the day after the occurrence 2019-02-05 … 2019-02-19) the hint
+is still 2020-02-05 (737460, the next start), and 2020-01-01 (737425) is now closed all day — as is every day
+in between (`envOK_shifted`) -/
+theorem shifted_witness_values :
+    (envOf Ctx.default shiftedExpr).hintOf 737110 = 737460 ∧
+    (envOf Ctx.default shiftedExpr).schedOf 737425 = [⟨0, 1440, .closed, []⟩] ∧
+    lastKind ((envOf Ctx.default shiftedExpr).schedOf 737110) = .closed ∧
+    (envOf Ctx.default shiftedExpr).schedOf 737460 = [⟨0, 1440, .open, []⟩] := by
+  decide +kernel
+
+/-- shapes that were outside the scope and are inside now: a shifted bound that leaves its year
+(`Jan 01 -7 days-Dec 25`), occurrences three years long (`Jan 01 -364 days-Dec 31 +370 days`), a single day
+longer than a year (`Dec 28 +35 days-Dec 28 +405 days`), February 29th with a long occurrence
+(`Feb 29 -1000 days-Feb 29 +10 days`), offsets of ±100 000 days with weekday moves -/
+def wideDated : Expr :=
+  let day (m : MonthdayRange) : DaySelector := ⟨[], [m], [], []⟩
+  [ ⟨day (.date (.fixed none 1 1) ⟨.none, -7⟩ (.fixed none 12 25) ⟨.none, 0⟩), [TimeSpan.fullDay], .open, .normal, []⟩,
+    ⟨day (.date (.fixed none 1 1) ⟨.none, -364⟩ (.fixed none 12 31) ⟨.none, 370⟩), [TimeSpan.fullDay], .closed, .normal, []⟩,
+    ⟨day (.date (.fixed none 12 28) ⟨.none, 35⟩ (.fixed none 12 28) ⟨.none, 405⟩), [⟨.fixed 600, .fixed 720, false, none⟩], .open, .normal, []⟩,
+    ⟨day (.date (.fixed none 2 29) ⟨.none, -1000⟩ (.fixed none 2 29) ⟨.none, 10⟩), [TimeSpan.fullDay], .unknown, .normal, []⟩,
+    ⟨day (.date (.fixed none 1 1) ⟨.prev 0, -100000⟩ (.fixed none 12 31) ⟨.next 6, 100000⟩), [TimeSpan.fullDay], .open, .additional, []⟩ ]
+
+example : ParserWF wideDated = true := by decide
+example : exprHintSafe wideDated = true := by decide
+example : DayLevelOK demoCtx wideDated := envOK_of_parserWF demoCtx (by decide) wideDated (by decide) (by decide)
+
+/-- outside the scope (nothing is proved, nothing is known to fail): a day offset beyond ±100 000 days on a
+yearless start -/
+example : exprHintSafe [⟨⟨[], [.date (.fixed none 1 1) ⟨.none, 100001⟩ (.fixed none 1 10) ⟨.none, 0⟩], [], []⟩,
+    [TimeSpan.fullDay], .open, .normal, []⟩] = false := by decide
 
 end OH.Props.C02B
